@@ -313,7 +313,7 @@ func c05Case(c *Ctx) {
 			cfg.Restarts = 2
 		}
 		cfg.Crashes = spec
-		if c.Plan.Draw(3) == 0 {
+		if c.Plan.Draw(2) == 0 {
 			// the operator is quick: jobs orphaned by the interruption are still
 			// reacting to it (or still running) when the next mrp starts
 			cfg.QuickRestart = 1 + c.Plan.Draw(12)
